@@ -36,7 +36,7 @@ def prebuild():
 def run(chk):
     vf.build_flavour("asan")
     shards = 16
-    total = vf.tier_n(chk.tier, 128, 1920)
+    total = vf.tier_n(chk.tier, 128, 4000)
     per = (total + shards - 1) // shards
     exe = vf.exe("asan", "csg_stat")
     env = vf.lib_env("asan")
